@@ -14,6 +14,9 @@ _ids = itertools.count()
 
 
 def gen_case(rng):
+    if rng.random() < 0.12:
+        return {'kind': 'lagclock', 'mode': 'paths', 'runs': rng.choice([2, 3]), 'at': rng.choice([1, 2]),
+                'value': rng.choice([7, 0, 50])}
     if rng.random() < 0.2:
         times = rng.sample([1, 2, 3, 4, 5, 6], 4)
         return {'kind': 'lagclock', 'mode': 'simulate', 'times': times, 'ts': rng.choice([1.0, 1.0, 2.0])}
@@ -39,7 +42,9 @@ def corpus():
             {'kind': 'lagclock', 'mode': 'respec', 'times': [1, 4], 'reversed': True, 'levels': [50, 0], 'total': 7},
             # a timeline handed to the composition helper simulate_process(), its events listed out of order: the
             # run lasts until the latest event time whatever the listing order
-            {'kind': 'lagclock', 'mode': 'simulate', 'times': [6, 1, 4, 2], 'ts': 1.0}]
+            {'kind': 'lagclock', 'mode': 'simulate', 'times': [6, 1, 4, 2], 'ts': 1.0},
+            # one `paths` dictionary (where the timeline's event ports are wired) used for several simulations
+            {'kind': 'lagclock', 'mode': 'paths', 'runs': 2, 'at': 1, 'value': 7}]
 
 
 def run_impl(case):
@@ -100,6 +105,36 @@ def run_impl(case):
                                                'display_info': False, 'progress_bar': False})
             obs['time'] = [float(t) for t in out['time']]
             obs['final'] = {k: v[-1] for k, v in out['box'].items()}
+        elif case['mode'] == 'paths':
+            import copy
+            import warnings
+            with warnings.catch_warnings():
+                warnings.simplefilter('ignore')
+                from vivarium.core.composition import simulate_process
+
+            class Two(Process):
+                defaults = {'time_step': 1.0}
+
+                def ports_schema(self):
+                    return {'box': {'v': {'_default': -1, '_updater': 'set', '_emit': True}},
+                            'inner': {'v': {'_default': -2, '_updater': 'set', '_emit': True}}}
+
+                def next_update(self, timestep, states):
+                    return {}
+            paths = {'box': ('cell', 'box')}
+            given = copy.deepcopy(paths)
+            runs = []
+            for _ in range(case['runs']):
+                with warnings.catch_warnings():
+                    warnings.simplefilter('ignore')
+                    out = simulate_process(Two(), {
+                        'timeline': {'timeline': [(case['at'], {('box', 'v'): case['value']}), (case['at'] + 2, {})],
+                                     'paths': paths},
+                        'topology': {'box': ('box',), 'inner': ('cell', 'box')},
+                        'display_info': False, 'progress_bar': False})
+                runs.append({'outer': out['box']['v'][-1], 'routed': out['cell']['box']['v'][-1]})
+            obs['runs'] = runs
+            obs['paths_kept'] = paths == given
         elif case['mode'] == 'respec':
             import copy
 
@@ -181,6 +216,16 @@ def oracle(case, impl):
         for i, t in enumerate(case['events']):
             if t <= gt - case['ts'] and vars_.get(f'e{i}') != i + 1:
                 return [f'fire-once: the event at {t} has not fired by t={gt} (variable e{i} = {vars_.get(f"e{i}")})']
+        return []
+    if case['mode'] == 'paths':
+        want = {'outer': -1, 'routed': case['value']}
+        for i, r in enumerate(impl['runs']):
+            if r != want:
+                return [f'event-paths: simulation {i + 1} with the same `paths` dictionary (the event port routed to '
+                        f'cell/box): the routed variable ends at {r["routed"]}, the one at the default place at '
+                        f'{r["outer"]}; the event writes {case["value"]} to the routed one']
+        if not impl['paths_kept']:
+            return ['event-paths: the caller\'s `paths` dictionary was modified']
         return []
     if case['mode'] == 'simulate':
         last = float(max(case['times']))
